@@ -256,7 +256,7 @@ Definition stage_tag (s : stage_code) : N :=
   match s with
   | SMap _ _ _ => 1 | SFMap _ _ _ => 2 | SFilter _ => 3 | SPartition _ => 4 | STake _ => 5 | STakeWhile _ => 6
   | SForEach => 7 | SVoid => 8 | SFold _ => 9 | SJoin _ => 10 | SUnfold _ _ _ _ => 11 | SEmit _ _ _ _ => 12
-  | SThrottle _ _ => 13 | SFork _ _ _ => 14
+  | SThrottle _ _ => 13 | SFork _ _ _ => 14 | SSeq _ => 15
   end%N.
 Definition digest (cs : list case) : list (N * N) :=
-  map (fun t => (t, count_where (fun c => N.eqb (stage_tag (stage (pc c))) t) cs)) (map N.of_nat (seq 1 14)).
+  map (fun t => (t, count_where (fun c => N.eqb (stage_tag (stage (pc c))) t) cs)) (map N.of_nat (seq 1 15)).
